@@ -143,6 +143,50 @@ func runManuf(c ManufCase) (res ev.Result) {
 		res.Violation = p
 		return
 	}
+	// a second value that differs from the first only by an edit that keeps length and checksum
+	// (two payload or size bytes swapped, or one raised and one lowered), built right after it:
+	// each value must give its own bytes
+	if p := ev.Try(func() {
+		w := v
+		w.SendingData = append([]byte{}, v.SendingData...)
+		changed := false
+		if c.Request {
+			if w.NumReqBytes[0] != w.NumReqBytes[2] {
+				w.NumReqBytes[0], w.NumReqBytes[2] = w.NumReqBytes[2], w.NumReqBytes[0]
+				changed = true
+			} else if w.NumReqBytes[0] < 127 && w.NumReqBytes[1] > 0 {
+				w.NumReqBytes[0]++
+				w.NumReqBytes[1]--
+				changed = true
+			}
+		} else if n := len(w.SendingData); n >= 2 {
+			d := w.SendingData
+			if d[0] != d[n-1] {
+				d[0], d[n-1] = d[n-1], d[0]
+				changed = true
+			} else if d[0] < 127 && d[n-1] > 0 {
+				d[0]++
+				d[n-1]--
+				changed = true
+			}
+		}
+		if !changed {
+			return
+		}
+		first := v.SysEx()
+		second := w.SysEx()
+		again := v.SysEx()
+		if !bytes.Equal(first, got) || !bytes.Equal(again, got) {
+			panic(fmt.Sprintf("building the same value again gives other bytes: % X, before % X", again, got))
+		}
+		pw, err := sysex.Parse(append([]byte{}, second...))
+		if err != nil || !equalManuf(*pw, w) {
+			panic(fmt.Sprintf("a value built directly after one with the same length and checksum: Parse(SysEx(w)) = %+v (%v), want %+v", pw, err, w))
+		}
+	}); p != "" {
+		res.Violation = p
+		return
+	}
 	// single byte corruptions of address / payload|size / checksum
 	n := len(got) - 6 // positions 5 .. len-2
 	try := func(pos, val int) string {
@@ -219,7 +263,7 @@ func genManuf(t *rapid.T) ManufCase {
 }
 
 var manuf = ev.NewCheck("C18", "manufacturer",
-	"rapid: manufacturer/device/model ids, 3-byte address, data-set payload of 1..512 7-bit bytes or 3-byte request size; oracle = independent byte layout + checksum sum + Parse(SysEx(v))==v + every/sampled single-byte corruption of address|payload|checksum must be rejected; non-trivial = checksum byte != 0; distinct by case hash",
+	"rapid: manufacturer/device/model ids, 3-byte address, data-set payload of 1..512 7-bit bytes or 3-byte request size; oracle = independent byte layout + checksum sum + Parse(SysEx(v))==v + a sibling value with the same length and checksum (two bytes swapped) built right afterwards parses to itself + every/sampled single-byte corruption of address|payload|checksum must be rejected; non-trivial = checksum byte != 0; distinct by case hash",
 	genManuf, runManuf)
 
 func TestPropManufacturer(t *testing.T) { manuf.Rapid(t, 4000, 40000) }
